@@ -3,6 +3,7 @@ CONSTANTS
   Modes <- BothModes
   Apis <- BothApis
   ContractView = "committed"
+  LedgerOnce = TRUE
   NilOnAbsent <- AllProducers
 VIEW view
 INVARIANTS TypeOK CrashOnlyByNil Defined
